@@ -752,6 +752,16 @@ Proof.
   intros Hne Hh Hp. unfold request_host_key.
   rewrite (index_byte_app h colon port (proj1 Hh)).
   rewrite (split_host_port_host_port h port Hne Hh Hp).
+  assert (E : contains_byte h colon = false) by (apply contains_byte_false; apply Hh).
+  rewrite E. destruct h; [congruence|reflexivity].
+Qed.
+
+Lemma request_host_key_pinned_port h port :
+  h <> [] -> plain h -> plain port -> request_host_key_pinned (h ++ colon :: port) = h.
+Proof.
+  intros Hne Hh Hp. unfold request_host_key_pinned.
+  rewrite (index_byte_app h colon port (proj1 Hh)).
+  rewrite (split_host_port_host_port h port Hne Hh Hp).
   destruct h; [congruence|reflexivity].
 Qed.
 
@@ -793,14 +803,12 @@ Proof.
   apply index_byte_none in E. contradiction.
 Qed.
 
-(** [a]:port -> a  (brackets removed) *)
-Lemma request_host_key_bracket_port a port :
+(** net.SplitHostPort strips the brackets of "[a]:port". *)
+Lemma split_host_port_bracket_port a port :
   ~ In x5b a -> ~ In x5d a -> plain port ->
-  request_host_key (x5b :: a ++ x5d :: colon :: port) = a.
+  split_host_port (x5b :: a ++ x5d :: colon :: port) = Some a.
 Proof.
-  intros Hl Hr (Pc & Pl & Pr). unfold request_host_key.
-  destruct (index_byte_S x5b (a ++ x5d :: colon :: port) colon) as [k ->]; [discriminate| |].
-  { apply in_or_app. right. right. now left. }
+  intros Hl Hr (Pc & Pl & Pr).
   rewrite split_host_port_bracket.
   replace (x5b :: a ++ x5d :: colon :: port) with ((x5b :: a ++ [x5d]) ++ colon :: port)
     by (cbn; now rewrite <- app_assoc).
@@ -828,13 +836,49 @@ Proof.
   now rewrite firstn_length_app.
 Qed.
 
-(** [a] without a port keeps its brackets, whatever [a] is. *)
-Lemma request_host_key_bracket_no_port a :
-  ~ In x5d a -> request_host_key (x5b :: a ++ [x5d]) = x5b :: a ++ [x5d].
+Lemma index_colon_bracket_port a port :
+  exists k, index_byte (x5b :: a ++ x5d :: colon :: port) colon = Some (S k).
 Proof.
-  intros Hr. unfold request_host_key.
-  destruct (index_byte (x5b :: a ++ [x5d]) colon) as [[|k]|]; try reflexivity.
-  rewrite split_host_port_bracket.
+  apply index_byte_S; [discriminate|]. apply in_or_app. right. right. now left.
+Qed.
+
+(** "[a]:port" with a ':' in [a] (an IPv6 literal): the brackets are put back. *)
+Lemma request_host_key_bracket_port a port :
+  In colon a -> ~ In x5b a -> ~ In x5d a -> plain port ->
+  request_host_key (x5b :: a ++ x5d :: colon :: port) = x5b :: a ++ [x5d].
+Proof.
+  intros Hc Hl Hr Hp. unfold request_host_key.
+  destruct (index_colon_bracket_port a port) as [k ->].
+  rewrite (split_host_port_bracket_port a port Hl Hr Hp).
+  apply contains_byte_true in Hc. now rewrite Hc.
+Qed.
+
+(** "[a]:port" without ':' in [a] ("[abc]:80"): looked up as "a", brackets dropped. *)
+Lemma request_host_key_bracket_port_no_colon a port :
+  ~ In colon a -> ~ In x5b a -> ~ In x5d a -> plain port ->
+  request_host_key (x5b :: a ++ x5d :: colon :: port) = a.
+Proof.
+  intros Hc Hl Hr Hp. unfold request_host_key.
+  destruct (index_colon_bracket_port a port) as [k ->].
+  rewrite (split_host_port_bracket_port a port Hl Hr Hp).
+  apply contains_byte_false in Hc. now rewrite Hc.
+Qed.
+
+(** The tree as given dropped the brackets in both cases. *)
+Lemma request_host_key_pinned_bracket_port a port :
+  ~ In x5b a -> ~ In x5d a -> plain port ->
+  request_host_key_pinned (x5b :: a ++ x5d :: colon :: port) = a.
+Proof.
+  intros Hl Hr Hp. unfold request_host_key_pinned.
+  destruct (index_colon_bracket_port a port) as [k ->].
+  now rewrite (split_host_port_bracket_port a port Hl Hr Hp).
+Qed.
+
+(** "[a]" without a port does not split: it keeps its brackets, whatever [a] is. *)
+Lemma split_host_port_bracket_no_port a :
+  ~ In x5d a -> split_host_port (x5b :: a ++ [x5d]) = None.
+Proof.
+  intros Hr. rewrite split_host_port_bracket.
   destruct (last_index_byte (x5b :: a ++ [x5d]) colon) as [i|] eqn:Ei; [|reflexivity].
   apply last_index_byte_bound in Ei.
   change (x5b :: a ++ [x5d]) with ((x5b :: a) ++ [x5d]) at 1.
@@ -843,6 +887,49 @@ Proof.
   assert (E : Nat.eqb (S (length (x5b :: a))) i = false).
   { apply Nat.eqb_neq. cbn in *. rewrite app_length in Ei. cbn in Ei. lia. }
   now rewrite E.
+Qed.
+
+Lemma request_host_key_bracket_no_port a :
+  ~ In x5d a -> request_host_key (x5b :: a ++ [x5d]) = x5b :: a ++ [x5d].
+Proof.
+  intros Hr. unfold request_host_key.
+  destruct (index_byte (x5b :: a ++ [x5d]) colon) as [[|k]|]; try reflexivity.
+  now rewrite (split_host_port_bracket_no_port a Hr).
+Qed.
+
+Lemma request_host_key_pinned_bracket_no_port a :
+  ~ In x5d a -> request_host_key_pinned (x5b :: a ++ [x5d]) = x5b :: a ++ [x5d].
+Proof.
+  intros Hr. unfold request_host_key_pinned.
+  destruct (index_byte (x5b :: a ++ [x5d]) colon) as [[|k]|]; try reflexivity.
+  now rewrite (split_host_port_bracket_no_port a Hr).
+Qed.
+
+(** The port of an IPv6 literal is ignored: both forms give the bracketed key. *)
+Lemma port_ignored_ipv6 a port :
+  In colon a -> ~ In x5b a -> ~ In x5d a -> plain port ->
+  request_host_key (x5b :: a ++ x5d :: colon :: port) = x5b :: a ++ [x5d] /\
+  request_host_key (x5b :: a ++ [x5d]) = x5b :: a ++ [x5d].
+Proof.
+  intros Hc Hl Hr Hp. split; [now apply request_host_key_bracket_port|].
+  now apply request_host_key_bracket_no_port.
+Qed.
+
+(** In the tree as given the two forms of one IPv6 authority had different keys. *)
+Lemma refuted_pinned_ipv6 : exists a port,
+  request_host_key_pinned (x5b :: a ++ x5d :: colon :: port) <>
+  request_host_key_pinned (x5b :: a ++ [x5d]).
+Proof. exists (bs "::1"), (bs "80"). vm_compute. discriminate. Qed.
+
+(** ... for every bracketed literal, in fact. *)
+Lemma pinned_ipv6_always_differs a port :
+  ~ In x5b a -> ~ In x5d a -> plain port ->
+  request_host_key_pinned (x5b :: a ++ x5d :: colon :: port) <>
+  request_host_key_pinned (x5b :: a ++ [x5d]).
+Proof.
+  intros Hl Hr Hp. rewrite (request_host_key_pinned_bracket_port a port Hl Hr Hp).
+  rewrite (request_host_key_pinned_bracket_no_port a Hr). intros H.
+  apply (f_equal (@length byte)) in H. cbn in H. rewrite app_length in H. cbn in H. lia.
 Qed.
 
 (** * Part 6: ownership under Set / Remove / CheckAvailability *)
